@@ -155,6 +155,10 @@ def main(tier):
     for a in ["LR", "SP", "FP", "SA0", "LC0", "SA1", "LC1", "USR", "GP", "UGP", "M0", "CS0", "P3_0", "UPCYCLE"]:
         items.append({"id": f"par{len(items)}", "entry": "stmt", "text": f"{{ HEX_REG_ALIAS_{a} = RsV; }}"})
         items.append({"id": f"par{len(items)}", "entry": "stmt", "text": f"{{ RdV = HEX_REG_ALIAS_{a} + 1; }}"})
+    # values whose TYPE OBJECT may be shared between compilations: boolean valued statement-expressions / calls, then constant conditions
+    for t in ["{ ReV = ({ RdV = RsV; RsV > 0; }) ? 1 : 2; }", "{ RdV = ((16) != 0) ? RsV : RtV; }", "{ RdV = (1 == 1) ? sextract64(RsV, 0, 16) : 0LL; }", "{ int32_t a = 0; if (({ a = RsV; a > RtV; })) { ReV = a; } }",
+              "{ RdV = (RsV > RtV) + (RsV && RtV) + !RsV; }", "{ RdV = (0 ? RsV : RtV) + sizeof(RsV > 1); }"]:
+        items.append({"id": f"par{len(items)}", "entry": "stmt", "text": t})
     for t in ["{ HEX_REG_ALIAS_LC0 = HEX_REG_ALIAS_LC0 - 1; }", "{ RdV = HEX_REG_ALIAS_LC0_NEW; }", "{ R31 = RsV; }", "{ RdV = R31; }", "{ P0 = RsV; }", "{ RdV = P0; }", "{ RdV = P0_NEW; }",
               "{ RxV = RsV; }", "{ RdV = RxV; }", "{ RxV += RsV; }", "{ RyyV = RssV; }", "{ RddV = RyyV; }", "{ PxV = PxV & PsV; }", "{ RdV = PxV; }", "{ C3:2 = RssV; }" if False else "{ RddV = C3:2; }"]:
         items.append({"id": f"par{len(items)}", "entry": "stmt", "text": t})
